@@ -1,15 +1,69 @@
 (* C07 -- H-Revolve family schedules achieve their cost optimum for any cost vector
    Property theorems only: each proof is one application of a lemma proved in Proofs/, followed by Print Assumptions. *)
 From Coq Require Import ZArith List Bool.
-From CS Require RevCost.
+From CS Require RevCost RevConv RevBridge4 RevolveRun Opt0Table.
 From CS Require Import Actions NAdvance Multistage Exec Sched RunFacts Projections BasicInv MultistageRun AllocTotal TLBridge MixBridge.
 Import ListNotations.
 Open Scope Z_scope.
 
-(* PARTIAL: Revolve only; table correctness as hypothesis; DiskRevolve/Periodic/HRevolve cost theorems not proved (oracle + correspondence only) *)
-Module M_C07_revolve_work_partial.
+(* Revolve on the extracted model, every cost vector with uf > 0: forward steps at exhaustion = N + P s (N-1), P = the step-count DP (Opt0Table.P: minimum over all first splits); reversed steps = N by the run theorem; no DISK traffic (budget 0) *)
+Module M_C07_revolve_forward_total.
+Import RevolveRun.
+Theorem C07_revolve_forward_total :
+  forall (N ram disk uf ub wd rd : Z) (k : nat),
+         1 <= N ->
+         0 <= ram ->
+         (2 <= N -> 1 <= ram) ->
+         0 < uf ->
+         exists L : list Ops.op,
+           RevConv.sequence RevConv.KRevolve N ram disk uf ub wd rd = Actions.Ok L /\
+           (let
+            '(s', m, ls) :=
+             Sched.run_ops (RevBridge4.rev_xparams N ram)
+               {|
+                 Sched.ob := Sched.ORevF RevConv.KRevolve N ram disk (RevConv.init_r L); Sched.started := false
+               |} Sched.mon0 (repeat Sched.Next k) in
+             RunFacts.mon_ok m /\
+             RunFacts.no_raise ls /\
+             (Sched.is_exhausted s' = true ->
+              Exec.fwd_total (Exec.cnt (Sched.mx m)) = N + Opt0Table.P ram (N - 1))).
+Proof. exact (@RevolveRun.revolve_forward_total). Qed.
+Print Assumptions C07_revolve_forward_total.
+End M_C07_revolve_forward_total.
+
+(* ... and the entry of the extracted get_opt_0_table for the whole problem is N ub + uf P s (N-1): stream cost uf*fwd + ub*N = table optimum + N uf, the memory-only optimum *)
+Module M_C07_revolve_table_optimum.
+Import RevolveRun.
+Theorem C07_revolve_table_optimum :
+  forall (N ram uf ub : Z) (t : list (list Z)),
+         1 <= N ->
+         1 <= ram ->
+         0 <= uf ->
+         RevSeq.get_opt_0_table (N - 1) ram uf ub = Actions.Ok t ->
+         RevSeq.tget t ram (N - 1) = Actions.Ok (N * ub + uf * Opt0Table.P ram (N - 1)).
+Proof. exact (@RevolveRun.revolve_table_optimum). Qed.
+Print Assumptions C07_revolve_table_optimum.
+End M_C07_revolve_table_optimum.
+
+(* every entry of the table the generators read is (l+1) ub + uf P m l *)
+Module M_C07_opt0_values.
+Import Opt0Table.
+Theorem C07_opt0_values :
+  forall uf ub : Z,
+         0 <= uf ->
+         forall (lmax cmax : Z) (t : list (list Z)),
+         0 <= lmax ->
+         RevSeq.get_opt_0_table lmax cmax uf ub = Actions.Ok t ->
+         forall m l : Z,
+         0 <= m <= cmax -> 0 <= l <= lmax -> 1 <= m \/ l = 0 -> RevSeq.tget t m l = Actions.Ok (val uf ub m l).
+Proof. exact (@Opt0Table.opt0_values). Qed.
+Print Assumptions C07_opt0_values.
+End M_C07_opt0_values.
+
+(* PARTIAL: the cost theorems for DiskRevolve, PeriodicDiskRevolve and HRevolve (get_opt_inf_table, get_hopt_table) and the three orderings between the classes are not proved: correspondence + clean-DP oracle only; (this lemma is the structural work formula the Revolve theorem rests on) *)
+Module M_C07_other_classes_partial.
 Import RevCost.
-Theorem C07_revolve_work_partial :
+Theorem C07_other_classes_partial :
   forall uf ub : Z,
          0 < uf ->
          forall (opt0 : list (list Z)) (M L : Z) (P : Z -> Z -> Z),
@@ -26,8 +80,8 @@ Theorem C07_revolve_work_partial :
          RevGen.revolve fuel opt0 uf l cm = RevGen.GOk ops ->
          0 <= l <= L -> 0 <= cm <= M -> (1 <= l -> 1 <= cm) -> work ops = l + 1 + P cm l.
 Proof. exact (@RevCost.revolve_work). Qed.
-Print Assumptions C07_revolve_work_partial.
-End M_C07_revolve_work_partial.
+Print Assumptions C07_other_classes_partial.
+End M_C07_other_classes_partial.
 
 (* the split chosen is a minimiser *)
 Module M_C07_argmin_min.
